@@ -124,18 +124,30 @@ func (c *client) pager(ctx context.Context, initialReq *ocirequest.Request, pars
 					return
 				}
 			}
-			if len(items) < initialReq.ListN {
+			if len(items) == 0 {
+				return
+			}
+			if len(items) < initialReq.ListN && resp.Header.Get("Link") == "" {
 				// From the distribution spec:
 				//     The response to such a request MAY return fewer than <int> results,
 				//     but only when the total number of tags attached to the repository
 				//     is less than <int>.
+				// A registry with a smaller page limit of its own says
+				// so with a Link header, which we follow.
 				return
 			}
-			req, err = nextLink(ctx, resp, initialReq, items[len(items)-1])
+			nextReq, err := nextLink(ctx, resp, initialReq, items[len(items)-1])
 			if err != nil {
 				yield("", fmt.Errorf("invalid Link header in response: %v", err))
 				return
 			}
+			if nextReq.URL.RequestURI() == req.URL.RequestURI() && (nextReq.URL.Host == "" || nextReq.URL.Host == req.URL.Host) {
+				// The registry has sent us back to where we've just been:
+				// following it would go on forever.
+				yield("", fmt.Errorf("listing is making no progress: the next page is the page just fetched (%v)", req.URL))
+				return
+			}
+			req = nextReq
 		}
 	}
 }
